@@ -157,14 +157,14 @@ func (g *c18G) genFile(f *c18File, level int) {
 		f.MetaQ = r.IntN(2) == 0
 	}
 	m := newC18Model(cs, nil)
-	env := &c18Env{}
+	env := cs.newEnv()
 	if isMain && cs.Home != nil {
 		m.file(cs.Home, env, 1)
 	}
 	m.imports(f, env, 0)
 	if m.fail != "" {
 		f.Imps = nil
-		env = &c18Env{}
+		env = cs.newEnv()
 	}
 	nDefs := 1 + r.IntN(4)
 	if isMain {
@@ -256,6 +256,13 @@ func c18Gen(seed uint64) c18Case {
 	if r.IntN(8) == 0 {
 		i := r.IntN(len(cs.Libs) + 1)
 		cs.Libs = append(cs.Libs[:i:i], append([]string{"nodir"}, cs.Libs[i:]...)...)
+	}
+	// global variables: mostly names that data imports also use, so that an importer's data shadows a global
+	if r.IntN(3) == 0 {
+		pool := append(append([]string{}, c18DataAliases...), "gv")
+		for _, i := range r.Perm(len(pool))[:1+r.IntN(2)] {
+			cs.Globals = append(cs.Globals, pool[i])
+		}
 	}
 	homeFile := false
 	switch cs.Mode {
